@@ -15,6 +15,13 @@ package llrp
 //   close       Client.Close (twice), a late send, then the connection ends
 //   shutdown    Client.Shutdown (reply ok / error status / cancelled), a late send, …
 //   cancel      the blocked callers' contexts end; replies arriving later for them are discarded; the session goes on
+// Two further families need a peer that pauses inside a frame / stops reading:
+//   cancel-mid  the peer sends a reply's header and part of its payload (the read loop has looked the caller up and is
+//   close-mid   reading the payload), the awaiting caller is cancelled / the client is closed, the peer sends the rest;
+//               afterwards another request/reply exchange, a keep-alive and Connect's return must still work
+//   crossing    1..3 KeepAlives cross the CloseConnection on the wire: the peer has stopped reading, so the write loop
+//               is blocked writing CloseConnection (or the request before it) while the read loop queues the acks; when
+//               the peer resumes, nothing may follow the CloseConnection frame (acks queued earlier precede it)
 
 import (
 	"fmt"
@@ -273,6 +280,84 @@ func c09Scripts(thorough bool) (out []string, tags []string) {
 					ops = append(st2.ops, "close")
 					ops = append(ops, st2.returns()...)
 					emit("cancel", append(ops, "pc", "rc"))
+				}
+			}
+		}
+	}
+	// --- cancel-mid / close-mid / crossing
+	for flavour := 0; flavour < 3; flavour++ {
+		segs := c09Session(flavour)
+		pro := func() *c09state {
+			st := &c09state{}
+			for _, sg := range segs {
+				if len(sg.ops) > 0 && strings.HasPrefix(sg.ops[0], "call:1:") {
+					break
+				}
+				st.add(sg)
+			}
+			return st
+		}
+		offs := []int{10, 11, 14, 17}
+		if thorough {
+			offs = []int{10, 11, 12, 13, 14, 15, 16, 17}
+		}
+		for _, k := range offs {
+			for _, others := range []int{0, 1} {
+				st := pro()
+				ops := append(st.ops, "call:1:2:1001", fmt.Sprintf("w:%d", st.written+1))
+				w := st.written + 1
+				if others == 1 {
+					w++
+					ops = append(ops, "call:2:3:1002", fmt.Sprintf("w:%d", w))
+				}
+				mid := append(append([]string{}, ops...), fmt.Sprintf("pspart:%d:12:@1:7", k), "cancel:1", "r:1", "psrest",
+					"call:3:1:1003", fmt.Sprintf("w:%d", w+1), "ps:11:@3:8", "r:3")
+				if others == 1 {
+					mid = append(mid, "ps:13:@2:9", "r:2")
+				}
+				mid = append(mid, "ps:62:60:0", fmt.Sprintf("w:%d", w+2), "close", "pc", "rc")
+				emit("cancel-mid", mid)
+				cm := append(append([]string{}, ops...), fmt.Sprintf("pspart:%d:12:@1:7", k), "close", "r:1")
+				if others == 1 {
+					cm = append(cm, "r:2")
+				}
+				emit("close-mid", append(cm, "psrest", "pc", "rc"))
+			}
+		}
+		for n := 1; n <= 3; n++ {
+			for _, order := range []string{"after", "before"} {
+				for _, others := range []int{0, 1} {
+					st := pro()
+					ops := st.ops
+					w := st.written
+					if others == 1 {
+						w++
+						ops = append(ops, "call:1:2:1001", fmt.Sprintf("w:%d", w))
+					}
+					ops = append(ops, "pstall")
+					if order == "after" {
+						// the write loop is blocked writing CloseConnection while the KeepAlives are handled
+						ops = append(ops, "shutdown:9", "ws:14")
+					} else {
+						// … blocked writing the request before it; Shutdown waits on sendQueue; the acks go first
+						ops = append(ops, "call:5:3:1005", "ws:3", "shutdown:9", "z")
+					}
+					for i := 0; i < n; i++ {
+						ops = append(ops, fmt.Sprintf("ps:62:%d:0", 70+i))
+					}
+					ops = append(ops, fmt.Sprintf("kh:%d", n), "presume")
+					total := w + 1
+					if order == "before" {
+						total = w + 1 + n + 1
+					}
+					ops = append(ops, fmt.Sprintf("w:%d", total), fmt.Sprintf("n:%d", total), "ps:4:@9:0", "r:9")
+					if order == "before" {
+						ops = append(ops, "r:5")
+					}
+					if others == 1 {
+						ops = append(ops, "r:1")
+					}
+					emit("crossing-"+order, append(ops, "pc", "rc"))
 				}
 			}
 		}
